@@ -55,6 +55,10 @@ type server struct {
 	receipts chan ncsclient.ReceiptPayload
 }
 
+// patience is how long a well-behaved witness waits for an answer before the harness calls it unserved: a wedged handler
+// never answers, so a generous wait costs nothing on a correct tree and does not mistake a loaded machine for a defect
+const patience = 10 * time.Second
+
 // syncEvery is the server's clock-synchronisation interval; production runs with an interval far below the idle timeout
 var syncEvery = time.Hour
 
@@ -187,7 +191,7 @@ func rid() uint32 { return atomic.AddUint32(&ridCounter, 1) }
 func (c *client) join(sessionID string) (string, uint32, bool) {
 	r := rid()
 	c.send(&hagallpb.ParticipantJoinRequest{Type: hagallpb.MsgType_MSG_TYPE_PARTICIPANT_JOIN_REQUEST, Timestamp: now(), RequestId: r, SessionId: sessionID})
-	m, ok := c.waitFor(hagallpb.MsgType_MSG_TYPE_PARTICIPANT_JOIN_RESPONSE, 2*time.Second, nil)
+	m, ok := c.waitFor(hagallpb.MsgType_MSG_TYPE_PARTICIPANT_JOIN_RESPONSE, patience, nil)
 	if !ok {
 		return "", 0, false
 	}
@@ -212,7 +216,7 @@ func (c *client) ping(d time.Duration) bool {
 func (c *client) addEntity() (uint32, bool) {
 	r := rid()
 	c.send(&hagallpb.EntityAddRequest{Type: hagallpb.MsgType_MSG_TYPE_ENTITY_ADD_REQUEST, Timestamp: now(), RequestId: r, Pose: &hagallpb.Pose{Px: 1}})
-	m, ok := c.waitFor(hagallpb.MsgType_MSG_TYPE_ENTITY_ADD_RESPONSE, 2*time.Second, func(m hwebsocket.Msg) bool {
+	m, ok := c.waitFor(hagallpb.MsgType_MSG_TYPE_ENTITY_ADD_RESPONSE, patience, func(m hwebsocket.Msg) bool {
 		var resp hagallpb.EntityAddResponse
 		m.DataTo(&resp)
 		return resp.RequestId == r
@@ -443,25 +447,25 @@ func newWorld(seed int64, idle, frame time.Duration) *world {
 
 // keepAlive makes the witnesses talk so that they are not idle
 func (w *world) witnessesFine() *verdict {
-	if !w.w3.ping(2 * time.Second) {
-		return &verdict{"other-session-disturbed", "a participant of another session got no ping response within 2 s"}
+	if !w.w3.ping(patience) {
+		return &verdict{"other-session-disturbed", "a participant of another session got no ping response in time"}
 	}
-	if !w.w1.ping(2 * time.Second) {
-		return &verdict{"same-session-witness-disturbed", "a well-behaved participant of the offender's session got no ping response within 2 s; server goroutines: " + leftoverStacks()}
+	if !w.w1.ping(patience) {
+		return &verdict{"same-session-witness-disturbed", "a well-behaved participant of the offender's session got no ping response in time; server goroutines: " + leftoverStacks()}
 	}
 	eid, ok := w.w2.addEntity()
 	if !ok {
-		return &verdict{"same-session-witness-disturbed", "a well-behaved participant of the offender's session could not add an entity within 2 s"}
+		return &verdict{"same-session-witness-disturbed", "a well-behaved participant of the offender's session could not add an entity in time"}
 	}
 	// pose updates travel through the session's frame worker: it must still be turning
 	px := float32(1000 + rid()%1000)
 	w.w2.send(&hagallpb.EntityUpdatePose{Type: hagallpb.MsgType_MSG_TYPE_ENTITY_UPDATE_POSE, Timestamp: now(), EntityId: eid, Pose: &hagallpb.Pose{Px: px}})
-	if _, ok := w.w1.waitFor(hagallpb.MsgType_MSG_TYPE_ENTITY_UPDATE_POSE_BROADCAST, 2*time.Second, func(m hwebsocket.Msg) bool {
+	if _, ok := w.w1.waitFor(hagallpb.MsgType_MSG_TYPE_ENTITY_UPDATE_POSE_BROADCAST, patience, func(m hwebsocket.Msg) bool {
 		var b hagallpb.EntityUpdatePoseBroadcast
 		m.DataTo(&b)
 		return b.EntityId == eid && b.Pose != nil && b.Pose.Px == px
 	}); !ok {
-		return &verdict{"session-frame-worker-stuck", "a pose update of a well-behaved participant of the offender's session was not relayed to the other witness within 2 s; server goroutines: " + leftoverStacks()}
+		return &verdict{"session-frame-worker-stuck", "a pose update of a well-behaved participant of the offender's session was not relayed to the other witness in time; server goroutines: " + leftoverStacks()}
 	}
 	return nil
 }
@@ -655,7 +659,7 @@ func scenarioStallSilent(seed int64, idle, frame time.Duration) *verdict {
 		if w.w1.send(&hagallpb.CustomMessage{Type: hagallpb.MsgType_MSG_TYPE_CUSTOM_MESSAGE, Timestamp: now(), Body: body}) != nil {
 			stuck = true
 		}
-		if i%100 == 0 && !w.w3.ping(2*time.Second) {
+		if i%100 == 0 && !w.w3.ping(patience) {
 			return w.finish(&verdict{"other-session-disturbed", "a participant of another session got no ping response while a member of the first session was stalled"}, 0, 4*time.Second+2*idle)
 		}
 	}
@@ -676,15 +680,26 @@ func scenarioIdle(seed int64, idle, frame time.Duration) *verdict {
 	chatty := w.s.dial("chatty", true)
 	w.all = append(w.all, chatty)
 	chatty.join(w.sidA)
-	deadline := time.Now().Add(3 * idle)
-	for time.Now().Before(deadline) {
-		if !chatty.ping(time.Second) {
-			return w.finish(&verdict{"talking-client-disconnected", "a client that sends a request every third of the idle timeout was disconnected"}, 0, 3*time.Second+2*idle)
+	// the talking client sends a request every quarter of the idle timeout, on its own clock (it does not wait for the
+	// answers: a slow machine must not turn it into a silent one)
+	stopTalking := make(chan struct{})
+	go func() {
+		t := time.NewTicker(idle / 4)
+		defer t.Stop()
+		for {
+			select {
+			case <-stopTalking:
+				return
+			case <-t.C:
+				chatty.send(&hagallpb.Request{Type: hagallpb.MsgType_MSG_TYPE_PING_REQUEST, Timestamp: now(), RequestId: rid()})
+			}
 		}
-		w.w1.ping(time.Second)
-		w.w2.ping(time.Second)
-		w.w3.ping(time.Second)
-		time.Sleep(idle / 3)
+	}()
+	time.Sleep(3 * idle)
+	talking := chatty.ping(patience)
+	close(stopTalking)
+	if !talking {
+		return w.finish(&verdict{"talking-client-disconnected", "a client that sends a request every quarter of the idle timeout was disconnected"}, 0, 3*time.Second+2*idle)
 	}
 	select {
 	case <-silent.closed:
@@ -850,7 +865,7 @@ func scenarioConcurrent(seed int64, idle, frame time.Duration) *verdict {
 	wg.Wait()
 	var v *verdict
 	for i, c := range clients {
-		if !c.ping(4 * time.Second) {
+		if !c.ping(patience) {
 			v = &verdict{"request-never-completes", fmt.Sprintf("client %d of %d got no ping response within 4 s after the concurrent phase; server goroutines: %s", i, k, leftoverStacks())}
 			break
 		}
@@ -965,7 +980,7 @@ func main() {
 	name := flag.String("scenario", "malformed", "scenario name")
 	seed := flag.Int64("seed", 1, "")
 	n := flag.Int("n", 1, "repetitions (seed, seed+1, ...)")
-	idle := flag.Duration("idle", 400*time.Millisecond, "client idle timeout of the server")
+	idle := flag.Duration("idle", 1500*time.Millisecond, "client idle timeout of the server")
 	frame := flag.Duration("frame", 10*time.Millisecond, "session frame duration")
 	flag.Parse()
 	logs.SetLogger(func(logs.Entry) {})
